@@ -1,5 +1,5 @@
 #!/usr/bin/env python3
-"""tools/seeded.py [import <out-dir> <prop>] | [run [<id> ...]] | [table]
+"""tools/seeded.py [import <out-dir> <prop> [<number offset>]] | [run [<id> ...]] | [table]
 
 Bookkeeping for seeded changes (breaking edits of scigolib/hdf5 written by independent sub-agents).
 
@@ -26,14 +26,14 @@ def sh(cmd, cwd=None, env=None, timeout=1800):
     return r.returncode, r.stdout + r.stderr
 
 
-def do_import(out, prop):
+def do_import(out, prop, offset=0):
     n = 0
     for fn in sorted(os.listdir(out)):
         m = re.match(r"patch_(\d+)\.diff$", fn)
         if not m:
             continue
         k = m.group(1)
-        d = os.path.join(SEEDED, "%s-%s" % (prop, k))
+        d = os.path.join(SEEDED, "%s-%d" % (prop, int(k) + offset))
         os.makedirs(d, exist_ok=True)
         shutil.copyfile(os.path.join(out, fn), os.path.join(d, "patch.diff"))
         meta = {}
@@ -70,7 +70,8 @@ def run_one(sid):
     sh(["git", "-C", "/repo", "worktree", "add", "-q", wt, "HEAD"])
     try:
         demo_dir = (meta.get("demo_dir") or ".").split()[0]
-        demo_dir = demo_dir.replace("/tmp/mut/%s/" % prop, "").replace("/tmp/mut/%s" % prop, ".")
+        for base in ("/tmp/mut2/", "/tmp/mut/"):
+            demo_dir = demo_dir.replace("%s%s/" % (base, prop), "").replace("%s%s" % (base, prop), ".")
         if os.path.isabs(demo_dir):
             demo_dir = "."
         target_dir = os.path.join(wt, demo_dir)
@@ -141,7 +142,7 @@ def table():
 if __name__ == "__main__":
     a = sys.argv[1:]
     if a and a[0] == "import":
-        do_import(a[1], a[2])
+        do_import(a[1], a[2], int(a[3]) if len(a) > 3 else 0)
     elif a and a[0] == "run":
         ids = a[1:] or sorted(x for x in os.listdir(SEEDED) if os.path.exists(os.path.join(SEEDED, x, "meta.json")))
         for sid in ids:
